@@ -10,6 +10,7 @@ Usage: gen_tables.py <out.v>      exit 0 = written (only if content changed)
                                   exit 2 = translation failed (message on stderr)
 """
 import ast
+import re
 import os
 import sys
 
@@ -123,6 +124,32 @@ def assigned_category(fn):
     return [a for a, _ in out]
 
 
+STALE = []
+OUTP = [None]
+
+
+def previous_definitions(names):
+    """the one-line definitions of `names` in the existing Tables.v, or None"""
+    try:
+        with open(OUTP[0]) as f:
+            txt = f.read()
+    except (OSError, TypeError):
+        return None
+    res = {}
+    for nm in names:
+        m = re.search(r'^Definition %s .*?\.$' % re.escape(nm), txt, re.M)
+        if m is None:
+            return None
+        res[nm] = m.group(0)
+    return res
+
+
+def str_seq(val, what):
+    """a tuple/list of names as is, a set/frozenset sorted"""
+    need(isinstance(val, (tuple, list, set, frozenset)) and all(isinstance(x, str) for x in val), what)
+    return list(val) if isinstance(val, (tuple, list)) else sorted(val)
+
+
 def generate():
     from TexSoup import category, tokens, reader, data, utils
 
@@ -166,79 +193,96 @@ def generate():
          'token rules changed: %s' % names)
     w('Definition rule_order : list rule_id :=\n  ' + lst(['R_' + n for n in names]) + '.')
     w('')
-    tk = parse_file('tokens.py')
-    # escaped symbols
-    f = func(tk, 'tokenize_escaped_symbols')
-    ml = membership_lists(f)
-    need(len(ml) == 1 and ml[0][0] == 'In', 'tokenize_escaped_symbols: expected one `in` list')
-    need(eq_constants(f) == [('Eq', 'Escape')], 'tokenize_escaped_symbols: head test changed')
-    need(assigned_category(f) == ['EscapedComment'], 'tokenize_escaped_symbols: category changed')
-    w('Definition escaped_second_cats : list cc := ' + lst([cc(n) for n in ml[0][1]]) + '.')
-    # comment
-    f = func(tk, 'tokenize_line_comment')
-    need(eq_constants(f) == [('Eq', 'Comment'), ('NotEq', 'Comment'), ('NotEq', 'EndOfLine')],
-         'tokenize_line_comment: tests changed: %s' % eq_constants(f))
-    need(assigned_category(f) == ['Comment'], 'tokenize_line_comment: category changed')
-    # math sym
-    f = func(tk, 'tokenize_math_sym_switch')
-    need(eq_constants(f) == [('Eq', 'MathSwitch'), ('Eq', 'MathSwitch')], 'tokenize_math_sym_switch changed')
-    need(assigned_category(f) == ['DisplayMathSwitch', 'MathSwitch'], 'tokenize_math_sym_switch categories')
-    # math asym
-    f = func(tk, 'tokenize_math_asym_switch')
-    d = dict_literal(f, 'mapping')
-    rows = []
-    for k, v in zip(d.keys, d.values):
-        need(isinstance(k, ast.Tuple) and len(k.elts) == 2, 'asym mapping key')
-        rows.append('((%s, %s), %s)' % (cc(attr_name(k.elts[0], 'CC')), cc(attr_name(k.elts[1], 'CC')),
-                                        tc(attr_name(v, 'TC'))))
-    w('Definition asym_map : list ((cc * cc) * tc) := ' + lst(rows) + '.')
-    # line break
-    f = func(tk, 'tokenize_line_break')
-    need(eq_constants(f) == [('Eq', 'Escape'), ('Eq', 'Escape')], 'tokenize_line_break changed')
-    need(assigned_category(f) == ['LineBreak'], 'tokenize_line_break category')
-    # ignore
-    f = func(tk, 'tokenize_ignore')
-    ml = membership_lists(f)
-    need(len(ml) == 1 and ml[0][0] == 'In', 'tokenize_ignore: expected one `in` list')
-    w('Definition ignore_cats : list cc := ' + lst([cc(n) for n in ml[0][1]]) + '.')
-    # spacers
-    f = func(tk, 'tokenize_spacers')
-    need(eq_constants(f) == [('Eq', 'Spacer'), ('Eq', 'EndOfLine'), ('Eq', 'Spacer')],
-         'tokenize_spacers: tests changed: %s' % eq_constants(f))
-    ml = membership_lists(f)
-    need(len(ml) == 1 and ml[0][0] == 'In', 'tokenize_spacers: expected one `in` list')
-    need(assigned_category(f) == ['MergedSpacer'], 'tokenize_spacers category')
-    w('Definition spacer_rollback_cats : list cc := ' + lst([cc(n) for n in ml[0][1]]) + '.')
-    # symbols
-    f = func(tk, 'tokenize_symbols')
-    d = dict_literal(f, 'mapping')
-    rows = ['(%s, %s)' % (cc(attr_name(k, 'CC')), tc(attr_name(v, 'TC'))) for k, v in zip(d.keys, d.values)]
-    w('Definition symbols_map : list (cc * tc) := ' + lst(rows) + '.')
-    # punctuation
-    f = func(tk, 'tokenize_punctuation_command_name')
-    need(eq_constants(f) == [('Eq', 'Escape')], 'tokenize_punctuation_command_name changed')
-    need(assigned_category(f) == ['PunctuationCommandName'], 'punctuation category')
-    # command name
-    f = func(tk, 'tokenize_command_name')
-    need(eq_constants(f) == [('Eq', 'Escape'), ('Eq', 'Letter'), ('Eq', 'Letter')],
-         'tokenize_command_name changed: %s' % eq_constants(f))
-    stars = [n.value for n in ast.walk(f) if isinstance(n, ast.Constant) and isinstance(n.value, str)
-             and len(n.value) == 1]
-    need(stars == ['*'], 'tokenize_command_name: star literal changed: %s' % stars)
-    need(assigned_category(f) == ['CommandName'], 'command_name category')
-    # string
-    f = func(tk, 'tokenize_string')
-    ml = membership_lists(f)
-    need(len(ml) == 1 and ml[0][0] == 'NotIn', 'tokenize_string: expected one `not in` list')
-    w('Definition string_stop_cats : list cc := ' + lst([cc(n) for n in ml[0][1]]) + '.')
+    # The inline category lists of the token rules are read from the AST of
+    # tokens.py, together with a fingerprint of each rule's tests.  When the
+    # rules have been rewritten into a shape this reader does not know, it
+    # gives up on THESE tables only: their previous values are kept (marked
+    # stale), so that the model still builds and the correspondence check
+    # (exhaustive over one character per category) decides whether the
+    # rewritten rules still behave like the model.
+    rule_tables = ['escaped_second_cats', 'asym_map', 'ignore_cats', 'spacer_rollback_cats',
+                   'symbols_map', 'string_stop_cats']
+    mark = len(out)
+    try:
+        tk = parse_file('tokens.py')
+        # escaped symbols
+        f = func(tk, 'tokenize_escaped_symbols')
+        ml = membership_lists(f)
+        need(len(ml) == 1 and ml[0][0] == 'In', 'tokenize_escaped_symbols: expected one `in` list')
+        need(eq_constants(f) == [('Eq', 'Escape')], 'tokenize_escaped_symbols: head test changed')
+        need(assigned_category(f) == ['EscapedComment'], 'tokenize_escaped_symbols: category changed')
+        w('Definition escaped_second_cats : list cc := ' + lst([cc(n) for n in ml[0][1]]) + '.')
+        # comment
+        f = func(tk, 'tokenize_line_comment')
+        need(eq_constants(f) == [('Eq', 'Comment'), ('NotEq', 'Comment'), ('NotEq', 'EndOfLine')],
+             'tokenize_line_comment: tests changed: %s' % eq_constants(f))
+        need(assigned_category(f) == ['Comment'], 'tokenize_line_comment: category changed')
+        # math sym
+        f = func(tk, 'tokenize_math_sym_switch')
+        need(eq_constants(f) == [('Eq', 'MathSwitch'), ('Eq', 'MathSwitch')], 'tokenize_math_sym_switch changed')
+        need(assigned_category(f) == ['DisplayMathSwitch', 'MathSwitch'], 'tokenize_math_sym_switch categories')
+        # math asym
+        f = func(tk, 'tokenize_math_asym_switch')
+        d = dict_literal(f, 'mapping')
+        rows = []
+        for k, v in zip(d.keys, d.values):
+            need(isinstance(k, ast.Tuple) and len(k.elts) == 2, 'asym mapping key')
+            rows.append('((%s, %s), %s)' % (cc(attr_name(k.elts[0], 'CC')), cc(attr_name(k.elts[1], 'CC')),
+                                            tc(attr_name(v, 'TC'))))
+        w('Definition asym_map : list ((cc * cc) * tc) := ' + lst(rows) + '.')
+        # line break
+        f = func(tk, 'tokenize_line_break')
+        need(eq_constants(f) == [('Eq', 'Escape'), ('Eq', 'Escape')], 'tokenize_line_break changed')
+        need(assigned_category(f) == ['LineBreak'], 'tokenize_line_break category')
+        # ignore
+        f = func(tk, 'tokenize_ignore')
+        ml = membership_lists(f)
+        need(len(ml) == 1 and ml[0][0] == 'In', 'tokenize_ignore: expected one `in` list')
+        w('Definition ignore_cats : list cc := ' + lst([cc(n) for n in ml[0][1]]) + '.')
+        # spacers
+        f = func(tk, 'tokenize_spacers')
+        need(eq_constants(f) == [('Eq', 'Spacer'), ('Eq', 'EndOfLine'), ('Eq', 'Spacer')],
+             'tokenize_spacers: tests changed: %s' % eq_constants(f))
+        ml = membership_lists(f)
+        need(len(ml) == 1 and ml[0][0] == 'In', 'tokenize_spacers: expected one `in` list')
+        need(assigned_category(f) == ['MergedSpacer'], 'tokenize_spacers category')
+        w('Definition spacer_rollback_cats : list cc := ' + lst([cc(n) for n in ml[0][1]]) + '.')
+        # symbols
+        f = func(tk, 'tokenize_symbols')
+        d = dict_literal(f, 'mapping')
+        rows = ['(%s, %s)' % (cc(attr_name(k, 'CC')), tc(attr_name(v, 'TC'))) for k, v in zip(d.keys, d.values)]
+        w('Definition symbols_map : list (cc * tc) := ' + lst(rows) + '.')
+        # punctuation
+        f = func(tk, 'tokenize_punctuation_command_name')
+        need(eq_constants(f) == [('Eq', 'Escape')], 'tokenize_punctuation_command_name changed')
+        need(assigned_category(f) == ['PunctuationCommandName'], 'punctuation category')
+        # command name
+        f = func(tk, 'tokenize_command_name')
+        need(eq_constants(f) == [('Eq', 'Escape'), ('Eq', 'Letter'), ('Eq', 'Letter')],
+             'tokenize_command_name changed: %s' % eq_constants(f))
+        stars = [n.value for n in ast.walk(f) if isinstance(n, ast.Constant) and isinstance(n.value, str)
+                 and len(n.value) == 1]
+        need(stars == ['*'], 'tokenize_command_name: star literal changed: %s' % stars)
+        need(assigned_category(f) == ['CommandName'], 'command_name category')
+        # string
+        f = func(tk, 'tokenize_string')
+        ml = membership_lists(f)
+        need(len(ml) == 1 and ml[0][0] == 'NotIn', 'tokenize_string: expected one `not in` list')
+        w('Definition string_stop_cats : list cc := ' + lst([cc(n) for n in ml[0][1]]) + '.')
+    except TranslationError as e:
+        del out[mark:]
+        old = previous_definitions(rule_tables)
+        need(old is not None, 'token rules not readable (%s) and no previous Tables.v' % e)
+        STALE.append('token-rule tables %s kept from the previous Tables.v: %s' % (rule_tables, e))
+        for nm in rule_tables:
+            w(old[nm])
     w('')
     # ---------------- names tables
     for nm, val in (('skip_env_names', tokens.SKIP_ENV_NAMES), ('math_env_names', tokens.MATH_ENV_NAMES)):
-        need(isinstance(val, tuple) and all(isinstance(x, str) for x in val), nm)
-        w('Definition %s : list (list N) :=\n  %s.' % (nm, lst([cps(x) for x in val])))
-    need(isinstance(tokens.SPECIAL_COMMANDS, (set, frozenset)), 'SPECIAL_COMMANDS')
-    w('Definition special_commands : list (list N) :=\n  %s.' % lst([cps(x) for x in sorted(tokens.SPECIAL_COMMANDS)]))
-    need(isinstance(tokens.PUNCTUATION_COMMANDS, (set, frozenset)), 'PUNCTUATION_COMMANDS')
+        w('Definition %s : list (list N) :=\n  %s.' % (nm, lst([cps(x) for x in str_seq(val, nm)])))
+    w('Definition special_commands : list (list N) :=\n  %s.' %
+      lst([cps(x) for x in sorted(str_seq(tokens.SPECIAL_COMMANDS, 'SPECIAL_COMMANDS'))]))
+    str_seq(tokens.PUNCTUATION_COMMANDS, 'PUNCTUATION_COMMANDS')
     w('(* a Python set: iterated in hash order by the code; dumped sorted here *)')
     w('Definition punctuation_commands : list (list N) :=\n  %s.' %
       lst([cps(x) for x in sorted(tokens.PUNCTUATION_COMMANDS)]).replace('; [', ';\n   ['))
@@ -286,6 +330,7 @@ def generate():
 
 def main():
     outp = sys.argv[1]
+    OUTP[0] = outp
     try:
         txt = generate()
     except TranslationError as e:
@@ -304,6 +349,8 @@ def main():
         print('Tables.v rewritten')
     else:
         print('Tables.v unchanged')
+    for msg in STALE:
+        print('TRANSLATION-PARTIAL: %s' % msg)
     return 0
 
 
